@@ -22,6 +22,8 @@ What extraction changes in a function (complete list; everything else is token-f
   E2b the return type `-> T` is written `-> (r: T)` (names the result for ensures clauses)
   E3  `format!(..)` -> `verif_msg()`;  `.to_string()` on a &'static str table entry is kept as is
   E8  `x %= e;` / `x /= e;` on an integer local -> `x = x % (e);` (semantics-preserving desugaring)
+  E9  `.into()` (method call, no arguments) -> `.verif_into()`: Verus has no spec for user `Into` impls; the unit declares
+      `verif_into` on the source type with the contract of the one-line impl (`fn into(self) -> LoopTyme { self.parent }`)
   E5  the clauses above are inserted at the anchored positions
 Any lost anchor raises ScanError (exit 2).
 """
@@ -102,6 +104,12 @@ class Extraction:
                 expr = text[toks[j + 3].start:toks[e].start]
                 repl.append((t.start, toks[e].start, '%s = %s %s (%s)' % (t.text, t.text, toks[j + 1].text, expr.strip())))
                 dropped.append('compound %s=' % toks[j + 1].text)
+        # E9: `.into()` -> `.verif_into()`
+        for j in range(it.body_open_k, it.toks_hi - 3):
+            t = toks[j]
+            if t.kind == 'id' and t.text == 'into' and toks[j - 1].text == '.' and toks[j + 1].text == '(' and toks[j + 2].text == ')':
+                repl.append((t.start, t.end, 'verif_into'))
+                dropped.append('.into() -> .verif_into()')
         # E2b: name the return value `r` so that ensures clauses can refer to it: `-> T` becomes `-> (r: T)`
         depth = 0
         for j in range(it.kw_tok, it.body_open_k):
